@@ -94,6 +94,23 @@ SCRIPTS = {
                                    ["OpenSp", 0, typed({"a": 2, "b": None})], ["Init", 3, False],
                                    ["UpdateSp", 3, typed({"b": "x", "a": 1}), True],
                                    ["UpdateSp", 1, typed({"b": None}), False], ["UpdateSp", 1, typed({"c": 0, "a": 1}), False]],
+    # update_statepoint WITHOUT overwrite on existing keys that hold falsy values (None, 0, [] ...): KeyError, no effect
+    "update-existing-falsy": [["NewSession", "A"], ["OpenSp", 0, typed({"a": 0, "b": None})], ["Init", 0, False],
+                              ["DocSet", 0, "p", typed(1)],
+                              ["UpdateSp", 0, typed({"b": "x"}), False], ["UpdateSp", 0, typed({"b": 0, "c": 0}), False],
+                              ["UpdateSp", 0, typed({"a": 1}), False], ["UpdateSp", 0, typed({"b": None, "c": 0}), False],
+                              ["UpdateSp", 0, typed({"c": [1, 2]}), False], ["Sp", 0],
+                              ["UpdateSp", 0, typed({"b": "x"}), True], ["UpdateSp", 0, typed({"b": None}), False]],
+    # the document is assigned a LIVE view of a job document: of itself, of a shallow copy, of a second handle of the same
+    # job, of another job
+    "document-assigned-live": [["NewSession", "A"], ["OpenSp", 0, typed({"a": 0})], ["Init", 0, False],
+                               ["DocSet", 0, "p", typed([1, {"z": None}])], ["DocSet", 0, "q", typed("v")],
+                               ["DocResetLive", 0, 0, typed({"p": [1, {"z": None}], "q": "v"})], ["Doc", 0],
+                               ["Copy", 0], ["DocResetLive", 1, 0, typed({"p": [1, {"z": None}], "q": "v"})], ["Doc", 0],
+                               ["OpenSp", 0, typed({"a": 0})], ["DocResetLive", 2, 0, typed({"p": [1, {"z": None}], "q": "v"})],
+                               ["Doc", 2], ["OpenSp", 0, typed({"a": 1})], ["Init", 3, False],
+                               ["DocResetLive", 3, 0, typed({"p": [1, {"z": None}], "q": "v"})], ["DocSet", 0, "q", typed(1)],
+                               ["Doc", 3]],
     # the caller keeps (and mutates in place) the mapping it passed to open_job before the handle is first used
     "caller-mutates-nested": [["NewSession", "A"], ["OpenSp", 0, typed({"a": 0, "c": [1, 2]})],
                               ["MutateArg", 0, "x", typed(9), True], ["Init", 0, False],
@@ -282,7 +299,8 @@ def random_ops(desc, W):
             # ---- composite patterns (classes of histories that single random ops rarely compose)
             pat = rng.choice(["multikey", "mutate", "copymove", "mutate-assigned", "pickle-shared", "pickle-shared",
                               "sibling-remove", "sibling-remove", "byid-rejected", "byid-rejected", "read-rekey-read",
-                              "byid-twins", "byid-twins", "shared-doc", "shared-doc", "type-only", "with-job", "with-job", "link-clone"])
+                              "byid-twins", "byid-twins", "shared-doc", "shared-doc", "type-only", "with-job", "with-job", "link-clone",
+                              "update-falsy", "update-falsy", "doc-live", "doc-live"])
             if pat == "sibling-remove":
                 # two independent live handles of one job (second open_job(sp), open_job(id=...) in the same or a fresh
                 # session): the job is (re-)initialised through one, removed through the other, and then the first one
@@ -317,6 +335,57 @@ def random_ops(desc, W):
                                           ["Edit", first, [], ["set", "b", typed(rng.choice(VALS["b"]))]]])
                         yield rng.choice([["Contains", si, first], ["Len", si], ["Ids", si], ["Reset", second],
                                           ["Init", second, False]])
+            elif pat == "update-falsy":
+                # update_statepoint without overwrite on an EXISTING key that holds a falsy value (None / 0): KeyError and
+                # no effect for a differing value (alone, or together with a new key), success for the same value
+                h = pick_handle(sp_safe)
+                if h not in dirty:
+                    k = rng.choice(["a", "b", "b", "c"])
+                    falsy = None if k == "b" and rng.random() < 0.7 else 0
+                    yield ["Edit", h, [], ["set", k, typed(falsy)]]
+                    if W.last_out == ["unit"]:
+                        if rng.random() < 0.5:
+                            yield ["Init", h, False]
+                        other = rng.choice([v for v in VALS[k] if v != falsy or type(v) is not type(falsy)])
+                        yield ["UpdateSp", h, typed({k: other}), False]
+                        k2 = rng.choice([x for x in KEYS if x != k])
+                        yield ["UpdateSp", h, typed({k2: rng.choice(VALS[k2]), k: other}), False]
+                        yield rng.choice([["Sp", h], ["IdPath", h], ["UpdateSp", h, typed({k: falsy}), False]])
+            elif pat == "doc-live":
+                # job.document = <a live document object>: its own (`job.doc = job.doc`), that of a shallow copy, of a
+                # second handle of the same job
+                h = pick_handle(doc_safe)
+                if h not in orphaned and doc_safe(h):
+                    yield ["Init", h, False]
+                    if W.last_out == ["unit"]:
+                        yield ["DocSet", h, rng.choice(DOCKEYS), typed(rng.choice(DOCVALS))]
+                        yield ["Doc", h]
+                        if W.last_out[0] == "json":
+                            val = W.last_out[1]
+                            how = rng.random()
+                            src, dst = h, h
+                            if how >= 0.4:
+                                before = len(W.handles)
+                                if how < 0.7:
+                                    yield ["Copy", h]
+                                    if len(W.handles) > before:
+                                        g = groups.get(h)
+                                        if g is None:
+                                            new_group(h)
+                                            g = groups[h]
+                                        groups[before] = g
+                                        copies[g] = copies.get(g, 0) + 1
+                                        shared.update(i for i, gg in groups.items() if gg == g)
+                                else:
+                                    j = W.handles[h]
+                                    sp = j._statepoint._to_base() if not j._statepoint_requires_init else dict(j._cached_statepoint or {})
+                                    yield ["OpenSp", [i for i, r_ in enumerate(sess_root) if r_ == W.root_of(j)][0], typed(sp)]
+                                    if len(W.handles) > before:
+                                        new_group(before)
+                                if len(W.handles) > before:
+                                    src, dst = (h, before) if rng.random() < 0.5 else (before, h)
+                            yield ["DocResetLive", dst, src, val]
+                            yield ["Doc", rng.choice([src, dst])]
             elif pat == "link-clone":
                 # a job whose payload holds symbolic links (target outside every project / relative target inside the job;
                 # links are outside the FS model, the model sees the file read through the link) is cloned; then bytes are
